@@ -27,7 +27,7 @@ def dumpSetup (channels : Int) (s : Setup) : List String :=
   let residues := s.residues.toList.zipIdx.map fun (r, i) =>
     s!"residue {i} type={r.type} begin={r.begin} end={r.end_} grouping={r.grouping} partitions={r.partitions} partvals={r.partvals} groupbook={r.groupbook} stages={commas r.secondstages} books={commas r.booklist}"
   let maps := s.maps.toList.zipIdx.map fun (m, i) =>
-    let cp := ",".intercalate ((List.range m.coupling_mag.size).map fun j => s!"{m.coupling_mag[j]!}:{m.coupling_ang[j]!}")
+    let cp := ",".intercalate (m.coupling.toList.map fun pr => s!"{pr.1}:{pr.2}")
     let _ := channels
     s!"map {i} submaps={m.submaps} chmux={commas m.chmuxlist} floor={commas m.floorsubmap} res={commas m.residuesubmap} coupling={cp}"
   let modes := s.modes.toList.zipIdx.map fun (m, i) =>
